@@ -2,6 +2,7 @@
 // real tree and projects the tree to the abstract state through the public read API only.
 #pragma once
 #include "common.hpp"
+#include <cmath>
 
 #include <gudhi/Simplex_tree.h>
 #include <gudhi/graph_simplicial_complex.h>
@@ -295,7 +296,7 @@ struct StModel {
       if (!K.empty()) {
         ST other;
         bool first = true;
-        for (auto& p : byd) { other.insert_simplex(lab(p.first), static_cast<FV>(Options::store_filtration && first ? p.second + 1 : p.second)); first = false; }
+        for (auto& p : byd) { other.insert_simplex(lab(p.first), static_cast<FV>(Options::store_filtration && first ? (std::isinf(p.second) ? 0. : p.second + 1) : p.second)); first = false; }   // inf + 1 == inf
         if (!Options::store_filtration) other.insert_simplex(lab({g_nv + 1}), FV(0));
         if (other == c) failed.push_back("operator== true against a different tree");
       }
